@@ -649,6 +649,14 @@ def family_values():
         ('InterfaceValue not implementing', 'type I interface{ M() }\ntype C struct{}', 'wire.InterfaceValue(new(I), C{})', 'I'),
         ('function literal', 'type FT func() int', 'wire.Value(FT(func() int { return 1 }))', 'FT'),
     ]
+    # the same unsafe operations nested inside every container form of the whitelist
+    nest_decl = ('type S struct{ ID int }\ntype MyInt int\nfunc one() int { return 1 }\nfunc ptr() *int { v := 1; return &v }\n'
+                 'var Arr = [3]int{1, 2, 3}\nvar Sl = []int{1, 2, 3}\nvar Ch = make(chan int, 1)\nvar Iface interface{} = 1\n')
+    nested = ['(one())', '-one()', 'one() + 1', '1 + (2 * one())', 'Arr[one()]', 'Sl[one():][0]', 'Sl[:one()][0]', 'S{ID: one()}.ID', '[]int{one()}[0]',
+              'map[string]int{"a": one()}["a"]', 'map[int]int{one(): 1}[1]', '[2]int{0: one()}[0]', 'int(one())', 'int(MyInt(one()))', '*ptr()',
+              'Iface.(int) + one()', '(<-Ch) + 1', '[]int{<-Ch}[0]', '-(<-Ch)', '*(&[]int{one()}[0])', 'struct{ A int }{A: one()}.A', '[...]int{one()}[0]']
+    for ex in nested:
+        rej.append(('nested unsafe operation: ' + ex, nest_decl, 'wire.Value(%s)' % ex, 'int'))
     for lab, decl, item, rty in rej:
         files = {
             'providers.go': 'package {PKG}\n\n%s\n' % decl,
